@@ -53,9 +53,20 @@ def gen_lattice(rng, n_max: int = 8, mix=None, n_min: int = 1) -> list[dict]:
     recs = []
     for i in range(n):
         r = gen_record(rng, mix[int(rng.integers(len(mix)))])
+        tame(r)
         r["name"] = f"el{i}"
         recs.append(r)
     return recs
+
+
+def tame(r: dict) -> dict:
+    """keep lattices in the regime the maps are meant for: a focusing phase advance sqrt(|k1|)*L of at most 1.5 per
+    element (a k1 = 15 /m^2 quadrupole of 2.5 m blows a beam up by cosh(9.7) ~ 1e4 into metres and non-finite Bmad-X
+    coordinates, where comparisons are meaningless); CustomTransferMaps wrap a quadrupole record"""
+    for q in (r, r.get("inner") or {}):
+        if "k1" in q and isinstance(q.get("L"), float) and q["L"] > 0 and abs(q["k1"]) * q["L"] ** 2 > 2.25:
+            q["k1"] = math.copysign(2.25 / q["L"] ** 2, q["k1"])
+    return r
 
 
 def nest(rng, recs: list[dict], p: float = 0.3, depth: int = 0) -> list[dict]:
